@@ -133,6 +133,7 @@ class CtorFn(Fn):
                         inner = inner[1:]
                     if any(isinstance(n, ast.Return) for x in inner for n in ast.walk(x)):
                         bad(st, "base __init__ with a return statement")
+                    fn.inlined = getattr(fn, "inlined", []) + [(r[0], r[1])]
                     return fn.state_locals(inner, r[0], depth + 1) or [ast.copy_location(ast.Pass(), st)]
                 return self.generic_visit(st)
         out = []
@@ -800,6 +801,9 @@ class CtorFn(Fn):
 
     def text(self):
         t = super().text()
+        for cls, g in getattr(self, "inlined", []):      # (the header format tools/srccover.py reads)
+            t = "(* %s: %s.%s, inlined through super() into the definition below, lines %d-%d *)\n" % (
+                self.mod.fn, cls, g.name, g.lineno, g.end_lineno) + t
         if self.is_ctor and pysrc.STATE[self.recv]:
             t = t.replace("\nDefinition %s (%s : Z) " % (self.cname, " ".join(pysrc.STATE[self.recv])), "\nDefinition %s " % self.cname, 1)
         if self.uses_be:
